@@ -25,11 +25,11 @@ from ..canon import fingerprint
 from ..explorer import Step
 
 PROPERTY = "C19"
-ALPHABET = "closing routes: close_connection (default arguments / last_stream_id=2^31-1) / received GOAWAY (alone / after a PING or SETTINGS in the same chunk) / FRAME_SIZE, PROTOCOL, FLOW_CONTROL connection errors; post-close: all sending calls on ids {1,2,3,5}, acknowledge_received_data, close_connection, and frames of every type on ids {0,1,2,3}"
+ALPHABET = "closing routes: close_connection (default arguments / last_stream_id=2^31-1) / received GOAWAY (alone / with binary debug data / after a PING or SETTINGS in the same chunk) / FRAME_SIZE, PROTOCOL, FLOW_CONTROL connection errors; post-close: all sending calls on ids {1,2,3,5}, acknowledge_received_data, close_connection, and frames of every type on ids {0,1,2,3}"
 BOUNDS = {"quick": "all base states x 5 closing routes x both roles, post-close depth 2 (after the drain step)", "thorough": "post-close depth 3"}
 sb = H.stateless_block
 
-ROUTES = ["close_connection", "close_connection-last-max", "rx-goaway", "rx-ping+goaway", "rx-settings+goaway",
+ROUTES = ["close_connection", "close_connection-last-max", "rx-goaway", "rx-goaway-binary-debug", "rx-ping+goaway", "rx-settings+goaway",
           "err-frame-size", "err-protocol", "err-flow-control", "err-state-machine"]
 MUST_RAISE = ("send_headers", "send_data", "end_stream", "increment_flow_control_window", "push_stream", "ping",
               "reset_stream", "update_settings", "advertise_alternative_service", "prioritize", "initiate_connection",
@@ -88,6 +88,9 @@ def close_it(conn, client, route):
         return True
     if route == "rx-goaway":
         data = wire.goaway(0, 0, b"bye").serialize()
+    elif route == "rx-goaway-binary-debug":
+        # the additional debug data is opaque (RFC 7540 6.8): neither text nor UTF-8
+        data = wire.goaway(0, 2, b"\xff\xfe\x00\xc3").serialize()
     elif route == "rx-ping+goaway":
         # frames that call for an automatic reply, followed by the GOAWAY in the same chunk
         data = wire.ping(b"12345678").serialize() + wire.goaway(0, 0, b"bye").serialize()
@@ -142,6 +145,9 @@ class Spec:
         calls.append(("ping", "ping", (b"12345678",), {}))
         calls.append(("update_settings", "update_settings", ({4: 100},), {}))
         calls.append(("altsvc", "advertise_alternative_service", (b"h2=\":1\"",), {"origin": b"example.com"}))
+        for sid in (1, 3):
+            # the implicit form goes through the stream as well as the connection
+            calls.append(("altsvc:%d" % sid, "advertise_alternative_service", (b"h2=\":1\"",), {"stream_id": sid}))
         calls.append(("close_again", "close_connection", (2,), {}))
         calls.append(("initiate", "initiate_connection", (), {}))
         calls.append(("initiate_upgrade", "initiate_upgrade_connection", (), {}))
